@@ -156,8 +156,16 @@ def run(run):
     from vlib import querygen as QG
     nq = 300 if run.depth == "quick" else 3000
     smism = []
+    stats_rep = [0]
     for i in range(nq):
-        q = QG.random_query(rng, structure_only=True)
+        q = QG.random_query(rng, structure_only=True, n_entities=rng.choice([1, 1, 2, 3, 4]))
+        if len(q.from_items) >= 2 and rng.random() < 0.4:
+            # the grammar does not ask for distinct aliases or kinds: the same alias (or kind) written twice is two items
+            j = rng.randrange(1, len(q.from_items))
+            k0, a0 = q.from_items[0]
+            q.from_items[j] = rng.choice([(q.from_items[j][0], a0), (k0, q.from_items[j][1]), (k0, a0)])
+            QG.flatten(q)
+            stats_rep[0] += 1
         text = Q.layout(q.lexemes, q.kinds, rng)
         rr = h.call(op="parse", q=text)
         mm = d.call("parse", text)
